@@ -32,6 +32,8 @@ type Solver struct {
 	useFB   bool
 	incTimeout int
 	Fallbacks int
+	QueryTimeout int // timeout (ms) of the fresh solve for the next queries; 0 = solver default
+	fbTimeout int
 }
 
 type savedState struct {
@@ -229,6 +231,7 @@ func (s *Solver) Check() Result {
 	// where z3 applies its full preprocessing
 	if s.fb != nil {
 		s.Fallbacks++
+		s.fb.fbTimeout = s.QueryTimeout
 		r := s.fb.solveFresh(s.stack)
 		s.Time += s.fb.Time
 		s.fb.Time = 0
@@ -244,6 +247,9 @@ func (s *Solver) Check() Result {
 
 func (s *Solver) solveFresh(stack [][]*Term) Result {
 	s.Reset()
+	if s.fbTimeout > 0 {
+		s.send(fmt.Sprintf("(set-option :timeout %d)\n", s.fbTimeout))
+	}
 	for _, fr := range stack {
 		for _, t := range fr {
 			r := s.emit(t)
